@@ -100,7 +100,7 @@ def run_impl(cases):
     return out
 
 
-FINDING_OF_REGION = [('strAnn', 'strAnnDeepSubclass'), ('namedtuple', 'namedtupleVsPlainClass'),
+FINDING_OF_REGION = [('namedtuple', 'namedtupleVsPlainClass'),
                      ('emptyFixedTuple', 'emptyFixedTuple'), ('typeOfUnion', 'typeOfUnionSubclass')]
 
 
